@@ -30,7 +30,9 @@ SPEC = {
         'C19_fast_path_partial': 'full (single-read fast path on a short-reading raw source: non-empty prefix, terminates)',
         'C19_bad_step_rejected': 'full',
         'shell commands (cp/mv/rm/rmdir/mkdir/touch/cat trees, round trip, failing commands)':
-            'correspondence/oracle only (partial): no Coq tree model yet',
+            'theorems over the tree model Shell/Model.v (cp_file_exact, cp_r_tree_exact, roundtrip, mv_moves, mv_across, '
+            'rm_removes_exactly, command_frame, failing_command_frame, cat_concat); structural consistency of the IMAGE after a '
+            'failing command is oracle-level (extracted structural check)',
     },
     'assumptions': [
         'sources used by the shell tool return full reads unless at end of file (host files and FatPath.open are '
@@ -283,6 +285,7 @@ def run(ctx, build):
         R = None                # the proof build is broken as well; still hunt for a concrete input
         ctx.stat('model-unavailable')
     check_copy(ctx, R)
+    lib.corr_modules(ctx, SPEC, ['shell_corr'])
     check_shell(ctx)
 
 
